@@ -52,6 +52,7 @@ type CfgSpec struct {
 	OptMask   int               `json:"opt_mask"`        // which of the four optimisations are enabled
 	ViaDirect bool              `json:"via_directive,omitempty"`
 	DirStyle  int               `json:"dir_style,omitempty"` // how the directive text is laid out
+	ViaAPI    bool              `json:"via_api,omitempty"`   // build the Config through NewConfig + Option helpers + RegisterOperator instead of a struct literal
 	Event     string            `json:"event,omitempty"`     // "", "report", "debug"
 }
 
@@ -409,6 +410,9 @@ func SpecMap(ops []OpSpec) map[string]*OpSpec {
 // subsets. The config is built as a struct literal; only maps the spec needs
 // are allocated.
 func BuildConfig(c *CfgSpec, host *OpHost, optMask int, setOpts bool) *eval.Config {
+	if c.ViaAPI {
+		return buildConfigViaAPI(c, host, optMask, setOpts)
+	}
 	cc := &eval.Config{
 		ConstantMap:    map[string]eval.Value{},
 		OperatorMap:    map[string]eval.Operator{},
@@ -446,6 +450,67 @@ func BuildConfig(c *CfgSpec, host *OpHost, optMask int, setOpts bool) *eval.Conf
 		for i, o := range optNames {
 			cc.CompileOptions[o] = optMask&(1<<i) != 0
 		}
+	}
+	return cc
+}
+
+// buildConfigViaAPI builds the same configuration through the public
+// construction API: NewConfig with the Option helpers (Optimizations,
+// EnableUndefinedVariable, EnableReportEvent, EnableDebug) and
+// RegisterOperator. Variable keys are still assigned explicitly (the spec
+// fixes them).
+func buildConfigViaAPI(c *CfgSpec, host *OpHost, optMask int, setOpts bool) *eval.Config {
+	var opts []eval.Option
+	if c.Undefined {
+		opts = append(opts, eval.EnableUndefinedVariable)
+	}
+	switch c.Event {
+	case "report":
+		opts = append(opts, eval.EnableReportEvent)
+	case "debug":
+		opts = append(opts, eval.EnableDebug)
+	}
+	if setOpts {
+		var on, off []eval.CompileOption
+		for i, o := range optNames {
+			if optMask&(1<<i) != 0 {
+				on = append(on, o)
+			} else {
+				off = append(off, o)
+			}
+		}
+		switch {
+		case len(off) == 0:
+			opts = append(opts, eval.Optimizations(true)) // no list = all of them
+		case len(on) == 0:
+			opts = append(opts, eval.Optimizations(false, eval.Optimize))
+		default:
+			opts = append(opts, eval.Optimizations(false, off...), eval.Optimizations(true, on...))
+		}
+	}
+	cc := eval.NewConfig(opts...)
+	for _, k := range sortedKeys(c.Consts) {
+		cc.ConstantMap[k] = c.Consts[k].Go()
+	}
+	for _, v := range c.Vars {
+		if v.Reg {
+			cc.VariableKeyMap[v.Name] = eval.VariableKey(v.Key)
+		}
+	}
+	for i := range c.Ops {
+		if IsBuiltin(c.Ops[i].Name) {
+			// RegisterOperator (rightly) refuses built-in names; such an entry
+			// can only come from RegVarAndOp or a direct write
+			cc.OperatorMap[c.Ops[i].Name] = host.Operator(c.Ops[i].Name)
+		} else if err := eval.RegisterOperator(cc, c.Ops[i].Name, host.Operator(c.Ops[i].Name)); err != nil {
+			panic("sim: RegisterOperator refused a fresh, non-built-in name: " + err.Error())
+		}
+		if c.Ops[i].Stateless {
+			cc.StatelessOperators = append(cc.StatelessOperators, c.Ops[i].Name)
+		}
+	}
+	for _, k := range sortedKeysS(c.Costs) {
+		cc.CostsMap[k] = parseCost(c.Costs[k])
 	}
 	return cc
 }
